@@ -87,6 +87,37 @@ JudgeC14 ==
                \/ G.parts[k].mark \in (SeqToSet(G.lel.follow[n]) \cup impl)
                \/ Say([g |-> G.name, p |-> "C14", what |-> "part_eof", n |-> n, part |-> G.parts[k].name])
 
+\* C05 (mechanism): the elision class lelwel attaches to every construct is the semantic one
+JudgeElision ==
+  LET G == Gs[g] IN
+  \A n \in Nodes(G) :
+    \/ G.lel.el[n] = ""
+    \/ G.lel.el[n] = ElisionClass(G, n)
+    \* "conditional" is always safe (the emitted code then decides at run time); lelwel uses it for
+    \* `^ | ^`, where the semantic class is "unconditional"
+    \/ G.lel.el[n] = "cond"
+    \/ Say([g |-> G.name, p |-> "C05", what |-> "elision_class", n |-> n,
+            spec |-> ElisionClass(G, n), impl |-> G.lel.el[n]])
+
+\* C07 (mechanism): binding powers order the branches and encode associativity exactly once
+JudgeBinding ==
+  LET G == Gs[g]
+      F == First(G)
+  IN \A ri \in RuleIds(G) :
+       LET R == G.lel.rec[ri]
+           twosided == SelectSeq(R, LAMBDA x : x.kind = "leftright")
+           bp == [k \in DOMAIN R |-> R[k].bp]
+           \* only two-sided branches have an associativity; one-sided ones are ordered only
+           ra == [k \in DOMAIN R |->
+                   IF R[k].kind = "leftright"
+                   THEN LET op == Opnds(G, R[k].node)[2]
+                            toks == F[op] \ {EPS}
+                        IN toks # {} /\ toks \subseteq SeqToSet(G.right)
+                   ELSE R[k].bp[1] > R[k].bp[2]]
+       IN \/ R = <<>>
+          \/ BindingPowersOK(bp, ra)
+          \/ Say([g |-> G.name, p |-> "C07", what |-> "binding_powers", n |-> ri, impl |-> bp, ra |-> ra])
+
 \* sanity of the oracle itself: a reduced grammar is what the quantifiers range over
 JudgeReduced ==
   LET G == Gs[g] IN Reduced(G) \/ Say([g |-> G.name, p |-> "PRE", what |-> "not_reduced"])
